@@ -1,6 +1,7 @@
 package sym
 
 import (
+	"os"
 	"encoding/json"
 	"fmt"
 	"go/types"
@@ -985,6 +986,19 @@ func init() {
 		e.yield("ctx.Done")
 		return st.ch
 	}
+	intrinsics["(*context.cancelCtx).Deadline"] = func(e *Engine, fr *frame, fn *ssa.Function, args []Value) Value {
+		p := args[0].(*Value)
+		if st, ok := e.side[p].(*ctxState); ok && st.deadline != nil {
+			return Tuple{e.mkTime(st.deadline), e.st.True}
+		}
+		// no deadline of its own: ask the parent (embedded Context)
+		if parent, ok := (*p).(Struct)[0].(Iface); ok && parent.T != nil {
+			if e.P.Prog.MethodSets.MethodSet(parent.T).Lookup(nil, "Deadline") != nil {
+				return e.callFunction(fr, e.P.Prog.LookupMethod(parent.T, nil, "Deadline"), []Value{parent.V}, nil)
+			}
+		}
+		return Tuple{e.mkTime(e.st.Const(64, 0)), e.st.False}
+	}
 	intrinsics["(*context.cancelCtx).Err"] = func(e *Engine, fr *frame, fn *ssa.Function, args []Value) Value {
 		st, ok := e.side[args[0].(*Value)].(*ctxState)
 		if !ok {
@@ -996,6 +1010,26 @@ func init() {
 	// ------------------------------------------------------------ runtime / os
 	pkgIntrinsics["runtime"] = noop
 	pkgIntrinsics["runtime/debug"] = noop
+	// zerolog.ParseLevel on concrete text (its documented table; zerolog v1.34: "" is NoLevel without an error)
+	intrinsics["github.com/rs/zerolog.ParseLevel"] = func(e *Engine, fr *frame, fn *ssa.Function, args []Value) Value {
+		levels := map[string]int64{"trace": -1, "debug": 0, "info": 1, "warn": 2, "error": 3, "fatal": 4, "panic": 5, "": 6, "disabled": 7}
+		txt := strings.ToLower(cstr(args[0]))
+		if v, ok := levels[txt]; ok {
+			return Tuple{e.st.Const(8, uint64(v)), Iface{}}
+		}
+		if n, err := strconv.Atoi(txt); err == nil && n >= -128 && n <= 127 {
+			return Tuple{e.st.Const(8, uint64(int64(n))), Iface{}}
+		}
+		return Tuple{e.st.Const(8, 6), e.newErrorIface("<zerolog: unknown level>")}
+	}
+	// the process environment is empty (no variable is set): os.Getenv / LookupEnv / ExpandEnv on concrete text
+	intrinsics["os.Getenv"] = func(e *Engine, fr *frame, fn *ssa.Function, args []Value) Value { return Str{} }
+	intrinsics["os.LookupEnv"] = func(e *Engine, fr *frame, fn *ssa.Function, args []Value) Value {
+		return Tuple{Str{}, e.st.False}
+	}
+	intrinsics["os.ExpandEnv"] = func(e *Engine, fr *frame, fn *ssa.Function, args []Value) Value {
+		return Str{S: os.Expand(cstr(args[0]), func(string) string { return "" })}
+	}
 	intrinsics["os.Exit"] = func(e *Engine, fr *frame, fn *ssa.Function, args []Value) Value {
 		panic(&abortSignal{kind: abortDone, msg: "os.Exit"})
 	}
